@@ -768,3 +768,126 @@ def dose_info_from_records(td: TextDen, records, amt="AMT"):
             kind = "bolus"
         info.setdefault(comp, set()).add(kind)
     return info
+
+
+# =========================================================================================== model vs model
+def compare_models(a: IRDen, b: IRDen, records, rng, K, c, prefix="", rename=None, compare_field=True, targets=None):
+    """Sampled equivalence of two in-memory models (refactoring r: a -> b).
+
+    Parameters / etas / epsilons are matched by name (through `rename`: old name -> new name); a parameter that
+    exists on one side only takes its initial estimate there.  Compared: the vector field (compartments by name),
+    dose events, and every symbol in `targets` (default: F and the dependent variables) after the error statements.
+    Raises Mismatch.  Returns the number of judged points.
+    """
+    from vp.numctx import CTX
+
+    CTX.use_mp()
+    try:
+        return _compare_models(a, b, records, rng, K, c, prefix, rename or {}, compare_field, targets)
+    finally:
+        CTX.use_float()
+
+
+def _names_env(ird, values_by_name, rec, t):
+    env = {}
+    for p in ird.model.parameters:
+        env[p.name] = values_by_name.get(p.name, float(p.init))
+    for n in ird.eta_names + ird.eps_names:
+        env[n] = values_by_name.get(n, 0.0)
+    env.update(rec)
+    env["t"] = t
+    return env
+
+
+def _compare_models(a, b, records, rng, K, c, prefix, rename, compare_field, targets):
+    inv = {v: k for k, v in rename.items()}
+    has_ode = a.cs is not None and b.cs is not None
+    if compare_field and (a.cs is None) != (b.cs is None):
+        raise Mismatch("one model has an ODE system, the other has not")
+    if has_ode and compare_field:
+        na = [rename.get(n, n) for n in a.cnames]
+        if sorted(na) != sorted(b.cnames):
+            raise Mismatch(f"compartments differ: {a.cnames} vs {b.cnames}")
+    tg = targets
+    if tg is None:
+        tg = ["F"]
+        # the dependent variables are matched by position (a refactoring may legitimately rename the symbol that
+        # carries the observation, e.g. cleanup_model turning 'Y = F' into the dependent variable F)
+        dv_pairs = list(zip(list(a.dv_map), list(b.dv_map)))
+    else:
+        dv_pairs = []
+    judged = 0
+    attempts = 0
+    while judged < K and attempts < 6 * K:
+        attempts += 1
+        vals = {}
+        rvp = set(a.model.random_variables.parameter_names)
+        for p in a.model.parameters:
+            if p.name in rvp:
+                vals[p.name] = float(p.init)
+            else:
+                vals[p.name] = sample_theta(rng, (float(p.init), float(p.lower), float(p.upper), p.fix))
+        for n in a.eta_names + a.eps_names:
+            vals[n] = rng.uniform(-0.7, 0.7)
+        # a random variable whose variance is fixed to zero is identically zero
+        pinit = {p.name: (float(p.init), p.fix) for p in a.model.parameters}
+        for dist in a.model.random_variables:
+            if len(dist.names) == 1 and dist.variance.is_symbol():
+                iv = pinit.get(dist.variance.name)
+                if iv and iv[0] == 0 and iv[1]:
+                    vals[dist.names[0]] = 0.0
+        vals_b = {rename.get(k, k): v for k, v in vals.items()}
+        rec = dict(rng.choice(records)) if records else {}
+        rec_b = {rename.get(k, k): v for k, v in rec.items()}
+        t = rng.uniform(0.0, 48.0)
+        amounts = {n: rng.uniform(0.1, 50.0) for n in a.cnames} if a.cs is not None else {}
+        amounts_b = {rename.get(n, n): v for n, v in amounts.items()}
+        if b.cs is not None and a.cs is None:
+            amounts_b = {n: rng.uniform(0.1, 50.0) for n in b.cnames}
+        try:
+            apk = a.run_pk(_names_env(a, vals, rec, t), amounts or None)
+            aerr = a.run_error(apk, amounts) if a.cs is not None else apk
+            afield = a.field(apk, amounts) if (has_ode and compare_field) else None
+        except EvalError:
+            c.hit(prefix + "point_rejected")
+            continue
+        except Unbound as u:
+            c.hit(prefix + "point_rejected_unbound_in_original")
+            continue
+        try:
+            bpk = b.run_pk(_names_env(b, vals_b, rec_b, t), amounts_b or None)
+            berr = b.run_error(bpk, amounts_b) if b.cs is not None else bpk
+            bfield = b.field(bpk, amounts_b) if (has_ode and compare_field) else None
+        except EvalError:
+            c.hit(prefix + "point_rejected")
+            continue
+        except Unbound as u:
+            raise Mismatch(f"the transformed model reads undefined symbol {u} where the original evaluates fine")
+        if afield is not None:
+            for n in a.cnames:
+                nb = rename.get(n, n)
+                if not close(afield[n], bfield[nb], 1e-8):
+                    raise Mismatch(f"d/dt of compartment {n}: before {afield[n]}, after {bfield[nb]}",
+                                   {"values": {k: float(v) for k, v in vals.items()}, "record": rec})
+            c.hit(prefix + "field")
+        for s in tg:
+            sb = rename.get(s, s)
+            if s in aerr and sb in berr:
+                if not close(aerr[s], berr[sb], 1e-8):
+                    raise Mismatch(f"{s}: before {aerr[s]}, after {berr[sb]}",
+                                   {"values": {k: float(v) for k, v in vals.items()}, "record": rec})
+                c.hit(prefix + "target_vars")
+            elif s in aerr and sb not in berr and s != "F":
+                raise Mismatch(f"{s} is defined before the transformation but not after")
+        for ya, yb in dv_pairs:
+            if ya in aerr and yb in berr:
+                if not close(aerr[ya], berr[yb], 1e-8):
+                    raise Mismatch(f"dependent variable {ya} (after: {yb}): before {aerr[ya]}, after {berr[yb]}",
+                                   {"values": {k: float(v) for k, v in vals.items()}, "record": rec})
+                c.hit(prefix + "target_vars")
+            elif ya in aerr:
+                raise Mismatch(f"dependent variable {yb} is not defined after the transformation")
+        if len(a.dv_map) != len(b.dv_map):
+            raise Mismatch(f"number of dependent variables changed: {list(a.dv_map)} -> {list(b.dv_map)}")
+        judged += 1
+    return judged
